@@ -30,6 +30,12 @@ LEVEL = {
             "attempt = first crossing (complete spec), reset and fresh threshold, user thresholds first, inverse-CDF target slot of length g_j/G, "
             "hop-time law prod(1-p_i) p_k (Poisson equivalence), zero-rate steps never attempt. Tied to TrajectoryCum.hopper on driven sequences", "7 C09", NOTE,
             "Lean 4 theorems (list induction, Real.exp algebra) + sequence correspondence"),
+    "C10": ("proof", "Lean theorems for any sample tree and any sequence of next_zeta calls (several thresholds per call, exhaustion): marginal weights, "
+            "last_dw = sum of the dw just passed, children of a crossing carry base*last_dw*sum_t r_t split into nspawn copies, accounting of crossed dw, "
+            "one-level conservation parent + children = base (explicit hypothesis sum dw = 1 only when the stack is exhausted; exact loss base*(1-sum dw) "
+            "otherwise), and tree_conservation by induction over the spawned family: all trajectories from one initial condition sum to the initial weight; "
+            "tensor structure of from_quadrature forests (total weight = product of level sums = 1). Child start point / parent untouched: checked on the "
+            "implementation (hop on clone, batches)", "7 C10", NOTE, "Lean 4 theorems (list accounting, induction over a nested family tree) + op-sequence correspondence + batch oracle"),
     "C14": ("proof", "Lean refinement of the YAML store to 'a plain list of snapshots', for every page size >= 1 and every history: collect = append "
             "(invariant preserved, all file operations succeed), len, indexing incl. negative indices and IndexError, reload reproduces the object state "
             "(also at exact multiples of the page size), in-memory store refines the same list (stores_agree for every index), clone holds the same "
